@@ -19,6 +19,9 @@
 #include <stdint.h>
 #include <unistd.h>
 #include <sys/time.h>
+#include <sys/wait.h>
+#include <fcntl.h>
+#include <unistd.h>
 #include <time.h>
 #include <openssl/evp.h>
 #include <openssl/hmac.h>
@@ -294,6 +297,8 @@ typedef struct ep
 static ep_t g_eps[MAXEP];
 static int g_recid = 0;
 static unsigned long long g_chunk_rng = 88172645463325252ULL;
+static int g_forkmode = 0, g_eptimeout = 120, g_leak_seen = 0;
+static int g_leakcheck = 0;   /* -l: leak check at every reset (slow) */
 static ep_t *g_cur_cb_ep; /* endpoint whose API call is in progress (for cert callback) */
 
 static ep_t *ep_find(const char *name)
@@ -548,6 +553,35 @@ void mxd_note_prng(long n)
     if (!e || !e->used) return;
     sb_printf(&e->sub, "%s{\"k\":\"E\",\"t\":\"prng\",\"x\":0,\"n\":%ld,\"q\":0,\"qh\":0,\"w\":0,\"bs\":0}", e->sub.n ? "," : "", n);
 }
+
+/******************************************************************************/
+/* allocation-failure injection (build variant "fault": the library's Malloc/Calloc/Realloc are these) */
+#if defined(__SANITIZE_ADDRESS__)
+extern void __sanitizer_print_stack_trace(void);
+#endif
+static long g_alloc_n = 0, g_fail_at = -1, g_fail_hits = 0;
+static int alloc_fails(void)
+{
+    long k = g_alloc_n++;
+    if (g_fail_at >= 0 && k == g_fail_at)
+    {
+        ep_t *e = g_cur_cb_ep;
+        g_fail_hits++;
+#if defined(__SANITIZE_ADDRESS__)
+        if (g_forkmode) { fprintf(stderr, "FAULT-INJECTED\n"); __sanitizer_print_stack_trace(); fprintf(stderr, "FAULT-END\n"); }
+#endif
+        if (e && e->used) sb_printf(&e->sub, "%s{\"k\":\"F\",\"t\":\"alloc\",\"x\":0,\"n\":%ld,\"q\":0,\"qh\":0,\"w\":0,\"bs\":0}", e->sub.n ? "," : "", k);
+        return 1;
+    }
+    return 0;
+}
+void *mxv_malloc(size_t n) { return alloc_fails() ? NULL : malloc(n); }
+void *mxv_calloc(size_t a, size_t b) { return alloc_fails() ? NULL : calloc(a, b); }
+void *mxv_realloc(void *p, size_t n) { return alloc_fails() ? NULL : realloc(p, n); }
+#if defined(__SANITIZE_ADDRESS__)
+extern int __lsan_do_recoverable_leak_check(void);
+extern void __sanitizer_print_stack_trace(void);
+#endif
 
 /******************************************************************************/
 /* certificate callback */
@@ -1066,7 +1100,15 @@ static void cmd_keys(char **tok, int ntok)
     if (!ks) die("too many key sets");
     memset(ks, 0, sizeof(*ks));
     snprintf(ks->name, sizeof(ks->name), "%s", tok[1]);
-    if (matrixSslNewKeys(&ks->keys, NULL) < 0) die("matrixSslNewKeys failed");
+    if (matrixSslNewKeys(&ks->keys, NULL) < 0)
+    {
+        /* (allocation failure injected) no key set */
+        ks->keys = NULL; ks->used = 1;
+        emit_begin(&g_out, "keys", NULL);
+        sb_printf(&g_out, ",\"name\":\"%s\",\"rcn\":%d", ks->name, PS_MEM_FAIL);
+        emit_end(&g_out);
+        return;
+    }
     ks->used = 1;
     id = opt_get(tok, ntok, "id");
     ca = opt_get(tok, ntok, "ca");
@@ -1139,6 +1181,12 @@ static void cmd_keys(char **tok, int ntok)
             ticket_key_material(k, name, sym, mac);
             rc = matrixSslLoadSessionTicketKeys(ks->keys, name, sym, 32, mac, 32);
         }
+    }
+    if (rc < 0)
+    {
+        /* an application does not go on with a key set that failed to load */
+        matrixSslDeleteKeys(ks->keys);
+        ks->keys = NULL;
     }
     emit_begin(&g_out, "keys", NULL);
     sb_printf(&g_out, ",\"name\":\"%s\",\"rcn\":%d", ks->name, rc);
@@ -1228,7 +1276,11 @@ static void cmd_new(char **tok, int ntok)
         if (rc < 0) die("SetSigAlgs failed %d", rc);
     }
     ep_call_begin(e);
-    if (e->server)
+    if (ks->keys == NULL)
+    {
+        rc = PS_MEM_FAIL;       /* the key set could not be created (injected allocation failure): an application stops here */
+    }
+    else if (e->server)
     {
         rc = matrixSslNewServerSession(&e->ssl, ks->keys, cb, &opts);
     }
@@ -1260,10 +1312,10 @@ static void cmd_new(char **tok, int ntok)
                 if (freeslot < 0) die("too many sids");
                 found = freeslot;
                 snprintf(g_sids[found].name, sizeof(g_sids[found].name), "%s", v);
-                if (matrixSslNewSessionId(&g_sids[found].sid, NULL) < 0) die("NewSessionId failed");
-                g_sids[found].used = 1;
+                if (matrixSslNewSessionId(&g_sids[found].sid, NULL) < 0) { g_sids[found].sid = NULL; found = -1; }
+                else g_sids[found].used = 1;
             }
-            sid = g_sids[found].sid;
+            sid = found >= 0 ? g_sids[found].sid : NULL;
         }
         rc = matrixSslNewClientSession(&e->ssl, ks->keys, sid, ns ? suites : NULL, ns, cb,
                 opt_get(tok, ntok, "name"), NULL, NULL, &opts);
@@ -2022,7 +2074,8 @@ static void run_line(char *line)
         int32 rc;
         if (ntok < 4) die("tickkey <K> add|del <n>");
         ticket_key_material(atoi(tok[3]), name, sym, mac);
-        if (!strcmp(tok[2], "add")) rc = matrixSslLoadSessionTicketKeys(ks->keys, name, sym, 32, mac, 32);
+        if (ks->keys == NULL) rc = PS_ARG_FAIL;
+        else if (!strcmp(tok[2], "add")) rc = matrixSslLoadSessionTicketKeys(ks->keys, name, sym, 32, mac, 32);
         else rc = matrixSslDeleteSessionTicketKey(ks->keys, name);
         emit_begin(&g_out, "tickkey", NULL);
         sb_printf(&g_out, ",\"name\":\"%s\",\"op\":\"%s\",\"k\":%d,\"rcn\":%d", ks->name, tok[2], atoi(tok[3]), rc);
@@ -2050,6 +2103,17 @@ static void run_line(char *line)
         emit_begin(&g_out, "tamper", e);
         sb_printf(&g_out, ",\"msg\":%d,\"mode\":%d", e->tam_msg, e->tam_mode);
         emit_end(&g_out);
+    }
+    else if (!strcmp(tok[0], "failat"))
+    {
+        /* failat <k>: the k-th allocation of the library from now on fails (once); k < 0: count only */
+        g_alloc_n = 0; g_fail_hits = 0; g_fail_at = atol(tok[1]);
+        emit_begin(&g_out, "failat", NULL); sb_printf(&g_out, ",\"k\":%ld", g_fail_at); emit_end(&g_out);
+    }
+    else if (!strcmp(tok[0], "failoff"))
+    {
+        emit_begin(&g_out, "failoff", NULL); sb_printf(&g_out, ",\"allocs\":%ld,\"hits\":%ld,\"k\":%ld", g_alloc_n, g_fail_hits, g_fail_at); emit_end(&g_out);
+        g_fail_at = -1;
     }
     else if (!strcmp(tok[0], "cpump"))
     {
@@ -2143,7 +2207,7 @@ static void run_line(char *line)
         int i;
         for (i = 0; i < MAXEP; i++) { if (g_eps[i].used) { char *t[2]; t[0] = "del"; t[1] = g_eps[i].name; cmd_del(t); } }
         for (i = 0; i < MAXSID; i++) { if (g_sids[i].used) { matrixSslDeleteSessionId(g_sids[i].sid); g_sids[i].used = 0; } }
-        for (i = 0; i < MAXKEYS; i++) { if (g_keys[i].used) { matrixSslDeleteKeys(g_keys[i].keys); g_keys[i].used = 0; } }
+        for (i = 0; i < MAXKEYS; i++) { if (g_keys[i].used) { if (g_keys[i].keys) matrixSslDeleteKeys(g_keys[i].keys); g_keys[i].used = 0; } }
         matrixSslClose();
         memset(g_slotn, 0, sizeof(g_slotn));
         matrixDtlsSetPmtu(-1);
@@ -2151,6 +2215,15 @@ static void run_line(char *line)
         if (matrixSslOpen() < 0) die("matrixSslOpen failed");
         emit_begin(&g_out, "Reset", NULL);
         sb_printf(&g_out, ",\"tag\":\"%s\"", ntok > 1 ? tok[1] : "");
+        {
+            int leak = 0;
+#if defined(__SANITIZE_ADDRESS__)
+            if (g_leakcheck) leak = __lsan_do_recoverable_leak_check();
+#endif
+            if (leak) g_leak_seen = 1;
+            sb_printf(&g_out, ",\"leak\":%d,\"allocs\":%ld,\"hits\":%ld", leak, g_alloc_n, g_fail_hits);
+            g_fail_at = -1;
+        }
         emit_end(&g_out);
         fflush(g_trace);        /* a later crash must not lose the episodes that ended well */
     }
@@ -2175,9 +2248,86 @@ int main(int argc, char **argv)
         if (!strcmp(argv[i], "-s") && i + 1 < argc) { in = fopen(argv[++i], "r"); if (!in) { perror("script"); return 2; } }
         else if (!strcmp(argv[i], "-t") && i + 1 < argc) { g_trace = fopen(argv[++i], "w"); if (!g_trace) { perror("trace"); return 2; } }
         else if (!strcmp(argv[i], "-v")) g_verbose = 1;
+        else if (!strcmp(argv[i], "-l")) g_leakcheck = 1;
+        else if (!strcmp(argv[i], "-F")) g_forkmode = 1;
+        else if (!strcmp(argv[i], "-T") && i + 1 < argc) g_eptimeout = atoi(argv[++i]);
     }
     if (matrixSslOpen() < 0) { fprintf(stderr, "matrixSslOpen failed\n"); return 2; }
     matrixVerifHook = verif_hook;
+    if (g_forkmode)
+    {
+        /* whole lines only reach the file, also when a child dies in the middle of an episode */
+        static char tbuf[1 << 20];
+        setvbuf(g_trace, tbuf, _IOLBF, sizeof(tbuf));
+        /* -F: every episode (the lines up to and including a "reset") runs in a child process, so that a crash,
+           a sanitizer report or a hang ends that episode only; the parent records it as a Crash line */
+        char **L = NULL; size_t nL = 0, capL = 0, a = 0, k;
+        int epno = 0;
+        const char *tpath = NULL;
+        for (i = 1; i < argc; i++) if (!strcmp(argv[i], "-t") && i + 1 < argc) tpath = argv[i + 1];
+        while (getline(&line, &cap, in) >= 0)
+        {
+            if (nL == capL) { capL = capL ? capL * 2 : 1024; L = realloc(L, capL * sizeof(char *)); }
+            L[nL++] = strdup(line);
+        }
+        while (a < nL)
+        {
+            size_t b = a;
+            char errp[600], tag[128] = "";
+            pid_t pid;
+            int status = 0;
+            while (b < nL && strncmp(L[b], "reset", 5) != 0) b++;
+            if (b < nL) { sscanf(L[b], "reset %127s", tag); b++; }
+            snprintf(errp, sizeof(errp), "%s.err%d", tpath ? tpath : "/tmp/mxdrive", epno++);
+            fflush(g_trace); fflush(stderr);
+            pid = fork();
+            if (pid == 0)
+            {
+                int fd = open(errp, O_WRONLY | O_CREAT | O_TRUNC, 0600);
+                if (fd >= 0) { dup2(fd, 2); close(fd); }
+                alarm(g_eptimeout);
+                for (k = a; k < b; k++) { g_scriptline = (int) k + 1; run_line(L[k]); }
+                fflush(g_trace);
+                _exit(g_leak_seen ? 79 : 0);
+            }
+            waitpid(pid, &status, 0);
+            if (status != 0)
+            {
+                /* signature: the sanitizer's ERROR / runtime error line and the first frames inside the repository */
+                char sig[1400] = "", inj[500] = "", ln[600];
+                FILE *ef = fopen(errp, "r");
+                int frames = 0, ininj = 0, injf = 0;
+                while (ef && fgets(ln, sizeof(ln), ef) && strlen(sig) < 1100)
+                {
+                    char *q;
+                    for (q = ln; *q; q++) if (*q == '"' || *q == '\\' || *q == '\n' || *q == '\t') *q = ' ';
+                    if (strstr(ln, "FAULT-INJECTED")) { ininj = 1; continue; }
+                    if (strstr(ln, "FAULT-END")) { ininj = 0; continue; }
+                    if (ininj)
+                    {
+                        if (strstr(ln, " in ") && strstr(ln, "/repo/") && injf < 4 && strlen(inj) < 380) { char *f = strstr(ln, " in "); strncat(inj, f + 4, 90); strcat(inj, " | "); injf++; }
+                        continue;
+                    }
+                    if (strstr(ln, "ERROR:") || strstr(ln, "runtime error") || strstr(ln, "mxdrive:")) { strncat(sig, ln, 300); strcat(sig, " | "); }
+                    else if (strstr(ln, " in ") && strstr(ln, "/repo/") && frames < 6) { char *f = strstr(ln, " in "); strncat(sig, f + 4, 160); strcat(sig, " | "); frames++; }
+                }
+                if (ef) fclose(ef);
+                fprintf(g_trace, "{\"i\":-1,\"ev\":\"Crash\",\"ep\":\"-\",\"tag\":\"%s\",\"exit\":%d,\"signal\":%d,\"sig\":\"%s\",\"inj\":\"%s\"}\n", tag,
+                    WIFEXITED(status) ? WEXITSTATUS(status) : -1, WIFSIGNALED(status) ? WTERMSIG(status) : 0, sig, inj);
+                fprintf(g_trace, "{\"i\":-1,\"ev\":\"Reset\",\"ep\":\"-\",\"tag\":\"%s\",\"leak\":0,\"allocs\":0,\"hits\":0,\"crashed\":1}\n", tag);
+            }
+            unlink(errp);
+            /* the child appended to the trace file through its own descriptor copy: move to the end */
+            fseek(g_trace, 0, SEEK_END);
+            a = b;
+        }
+        fflush(g_trace);
+        if (g_trace != stdout) fclose(g_trace);
+        for (k = 0; k < nL; k++) free(L[k]);
+        free(L); free(line); free(g_out.s);
+        matrixSslClose();
+        return 0;
+    }
     while (getline(&line, &cap, in) >= 0)
     {
         g_scriptline++;
